@@ -149,10 +149,10 @@ Fixpoint recid_search (fuel : nat) (i hi : Z) (r_val s_val hash mine : bytes) : 
       if hi <=? i then Err ValueError else
       do rc <- cec_recover r_val s_val hash i true;
       match rc with
-      | (1, Some Q) =>
-          if bytes_eqb (sec1_enc E Compressed Q) mine then Ok i
+      | (result, Some Q) =>                          (* cec_key now holds Q *)
+          if (result =? 1) && bytes_eqb (sec1_enc E Compressed Q) mine then Ok i
           else recid_search f (i + 1) hi r_val s_val hash mine
-      | _ => recid_search f (i + 1) hi r_val s_val hash mine
+      | (_, None) => recid_search f (i + 1) hi r_val s_val hash mine
       end
   end.
 
